@@ -319,3 +319,27 @@ PROPS["C03"] = {
     "level_text": "Bounded symbolic model checking of RoaringBitmap (including the skip list and the Bits/Bitmap containers underneath) against a set model: values are symbolic over the whole uint32 range, and the 4096-element conversion threshold is crossed from a concretely pre-filled bucket with symbolic values in a window, including the unsafe reinterpretation of the uint16 array as 1024 uint64 words.",
     "level_note": "Trusted: go/ssa, gosym (incl. its little-endian model of the [1024]uint64 reinterpreting load), z3.",
 }
+
+# ------------------------------------------------------------------------------------------- C11
+c11 = "vh/c11."
+PROPS["C11"] = {
+    "patterns": ["./c11"],
+    "level": "model_checking",
+    "concurrent": True,
+    "shim": {"files": ["listz/sync_list.go"]},
+    "quick": [
+        J(c11 + "Conc", threads=2, ops=2, init=1, cfg={"Preempt": 2, "Witnesses": 0}),
+        J(c11 + "Conc", threads=3, ops=1, init=1, cfg={"Preempt": 2, "Witnesses": 0}),
+    ],
+    "thorough": [
+        J(c11 + "Conc", threads=2, ops=3, init=2, cfg={"Preempt": 2, "Witnesses": 0, "MaxPaths": 80000000}),
+        J(c11 + "Conc", threads=3, ops=2, init=1, cfg={"Preempt": 2, "Witnesses": 0, "MaxPaths": 80000000}),
+        J(c11 + "Conc", threads=2, ops=2, init=1, cfg={"Preempt": 4, "Witnesses": 0, "MaxPaths": 80000000}),
+    ],
+    "bounds": {"quick": "2 goroutines x 2 operations and 3 goroutines x 1 operation, each operation any of Push/Pop/Len/PopWait(0), initial content 0..1; every interleaving of the atomic steps with at most 2 preemptions (context switches at blocking/yield/exit are free), spinning pushers treated fairly; vector-clock happens-before race check on every plain access",
+               "thorough": "2x3, 3x2 operations with 2 preemptions; 2x2 with 4 preemptions"},
+    "outside": ["more goroutines/operations/preemptions", "PopWait with positive timeout (ticker)", "weak-memory effects (Go atomics are sequentially consistent)"],
+    "assumptions": ["sync/atomic operations are sequentially consistent and are the only scheduling points (sound for data-race-free executions; races are detected on the explored schedules)", "pushed values are distinct constants (the list is generic and cannot branch on values)"],
+    "level_text": "Bounded model checking of the real SyncList code under a controlled scheduler: every schedule of the atomic operations within the preemption bound is executed; each is checked for linearizability to an unbounded FIFO (Wing-Gong search on the recorded history), conservation, the Len() bounds, quiescent exactness, data races (vector clocks) and deadlock/livelock. Little scalar data is symbolic here: the solver's role is feasibility only; the deciding step is exhaustive schedule exploration within the bound.",
+    "level_note": "Trusted: go/ssa, gosym scheduler and race detector, SC atomics. Counterexamples are confirmed natively: the library file is rebuilt (overlay) with sync/atomic and runtime.Gosched redirected to a shim that releases goroutines in the recorded order, so the real code replays the interleaving; races are confirmed with -race; an unconfirmed counterexample is reported as inconclusive.",
+}
